@@ -430,19 +430,54 @@ def write_hostile_script(path, seed, executions):
 
 def write_reload_script(path, seed, executions):
     """Conversations for the allocation-failure enumeration: several records of another source in every
-    family, full loads, incremental updates and atomic reloads (Cache Reset, session change), no cache misbehaviour."""
+    family, full loads, incremental updates, atomic reloads (Cache Reset, session change) and responses that fail after
+    part of their payload has been applied (so that roll-backs run under allocation failure too): one failing incremental
+    update per family of the offending PDU, each with withdrawals and announcements of both prefix families before it."""
     rnd = random.Random(seed * 31 + 5)
     lines = []
+
+    def force_delta(c):
+        for fam in ("4", "6", "k"):
+            pres = [r for r in c.data.values() if r["k"] == fam]
+            absn = [r for r in c.pool if r["k"] == fam and rkey(r) not in c.data]
+            if pres:
+                del c.data[rkey(rnd.choice(pres))]
+            if absn:
+                r = rnd.choice(absn)
+                c.data[rkey(r)] = r
+        c.serial = (c.serial + 1) & U32
+        c.hist[c.serial] = dict(c.data)
+
+    def failing(c, fam):
+        def corrupt(items, base):
+            absent = [r for r in c.pool if r["k"] == fam and rkey(r) not in base and rkey(r) not in c.data]
+            present = [r for r in c.data.values() if r["k"] == fam]
+            if absent and (not present or rnd.random() < 0.6):
+                bad = {"f": frame_of(rnd.choice(absent), 0, c.v)}        # withdrawal of an unknown record
+            elif present:
+                bad = {"f": frame_of(rnd.choice(present), 1, c.v)}       # announced twice / already held
+            else:
+                return items
+            return items[:-1] + [bad] + items[-1:]
+        return c.alts(corrupt)
     for _ in range(executions):
         c = Cache(rnd, 1)
+        for mk in (rec4, rec4, rec6, rec6, reck, reck, reck):             # every family has spare records
+            c.pool.append(mk(rnd))
         cfg = {"refresh": "30", "expire": "7200", "retry": "1", "mode": "min_max",
                "others": [rec4(rnd), rec4(rnd), rec4(rnd), rec6(rnd), rec6(rnd), reck(rnd), reck(rnd)], "t0": 0}
         lines.append({"new": cfg})
         lines.append({"ex": {"alts": c.alts()}})
         c.mutate()
         lines.append({"ex": {"alts": c.alts()}})
+        for fam in rnd.sample(["4", "6", "k"], 3):
+            force_delta(c)
+            lines.append({"ex": {"alts": failing(c, fam)}})          # incremental update that fails at its last PDU
+            lines.append({"ex": {"alts": c.alts()}})
         lines.append({"ex": {"alts": [{"q": "any", "items": [{"f": {"t": "cache_reset", "v": c.v}}]}]}})
         c.mutate()
+        if rnd.random() < 0.5:
+            lines.append({"ex": {"alts": failing(c, rnd.choice(["4", "6", "k"]))}})      # atomic reload that fails
         for _ in range(3):
             lines.append({"ex": {"alts": c.alts()}})
         c.restart()
